@@ -6,9 +6,10 @@ import MxlVerif.Model.C03
 namespace Mxl.C03
 open Mxl
 
-/-- the invariant of `_cache`: empty, or exactly what `_create_cache` builds from the current content -/
+/-- the invariant of `_cache`: empty, or exactly what `_create_cache` builds from the current content
+    (sanity checks on the functions' signatures included) -/
 def CacheOK (s : State) : Prop :=
-  s.cache = none ∨ ∃ c, createCache s.content = .ok c ∧ s.cache = some c
+  s.cache = none ∨ ∃ c, buildCache s.sigs s.content = .ok c ∧ s.cache = some c
 
 /-- a sub-step that never fills the cache -/
 def ToNone (f : State → State × Res) : Prop := ∀ s, s.cache = none → (f s).1.cache = none
@@ -231,6 +232,7 @@ def mustInvalidate : Gen.Mut → Bool
   | .add_variable | .remove_variable | .update_variable
   | .add_derived | .update_derived | .remove_derived
   | .add_reaction | .update_reaction | .remove_reaction
+  | .add_readout | .remove_readout
   | .add_surrogate | .update_surrogate | .remove_surrogate
   | .add_data | .update_data | .remove_data => true
   | _ => false
@@ -318,92 +320,17 @@ theorem removeData_none (hm : Gen.invalidates .remove_data = true) (n s) :
   have : removeData n s = removeData n (inval .remove_data s) := by simp [removeData, inval_idem]
   rw [this]; exact removeData_toNone _ _ (inval_none hm s)
 
-/-! ### readouts: `createCache` does not read them, so these two need no decorator -/
+/-! ### readouts: the sanity checks of `_create_cache` read them, so these two need the decorator as well -/
 
-theorem classify_readouts (c : Content) (x) (l st dy apn) :
-    classify { c with readouts := x } l st dy apn = classify c l st dy apn := by
-  induction l generalizing st dy apn with
-  | nil => rfl
-  | cons k ks ih =>
-    simp only [classify]
-    split
-    · exact ih _ _ _
-    · split
-      · exact ih _ _ _
-      · split
-        · exact ih _ _ _
-        · split
-          · exact ih _ _ _
-          · exact ih _ _ _
+theorem addReadout_none (hm : Gen.invalidates .add_readout = true) (n v s) :
+    (addReadout n v s).1.cache = none := by
+  have : addReadout n v s = addReadout n v (inval .add_readout s) := by simp [addReadout, inval_idem]
+  rw [this]; exact addReadout_toNone _ _ _ (inval_none hm s)
 
-theorem createCache_readouts (c : Content) (x) : createCache { c with readouts := x } = createCache c := by
-  unfold createCache
-  simp only [classify_readouts]
-  rfl
-
-/-- a sub-step that neither touches the cache nor anything `createCache` reads -/
-def Frame (f : State → State × Res) : Prop :=
-  ∀ s, (f s).1.cache = s.cache ∧ createCache (f s).1.content = createCache s.content
-
-theorem frame_andThen {f g : State → State × Res} (hf : Frame f) (hg : Frame g) :
-    Frame (fun s => andThen (f s) g) := by
-  intro s
-  have h1 := hf s
-  simp only [andThen]
-  split
-  · rename_i s1 heq
-    rw [heq] at h1
-    have h2 := hg s1
-    exact ⟨h2.1.trans h1.1, h2.2.trans h1.2⟩
-  · rename_i s1 e heq
-    rw [heq] at h1
-    exact h1
-
-theorem insertId_frame (n k) : Frame (insertId n k) := by
-  intro s; unfold insertId fail ok; split <;> (try split) <;> simp
-
-theorem removeId_frame (n) : Frame (removeId n) := by
-  intro s; unfold removeId fail ok; split <;> simp
-
-theorem putG_readouts_frame (n v) : Frame (putG readoutsL n v) := by
-  intro s; simp [putG, ok, readoutsL, createCache_readouts]
-
-theorem popG_readouts_frame (n) : Frame (popG readoutsL n) := by
-  intro s; unfold popG fail ok; split <;> simp [readoutsL, createCache_readouts]
-
-theorem addG_readouts_frame (m k n v) : Frame (addG m readoutsL k n v) := by
-  intro s; unfold addG
-  split
-  · exact frame_andThen (insertId_frame n k) (putG_readouts_frame n v) s
-  · exact frame_andThen (putG_readouts_frame n v) (insertId_frame n k) s
-
-theorem removeG_readouts_frame (m n) : Frame (removeG m readoutsL n) := by
-  intro s; unfold removeG
-  split
-  · exact frame_andThen (popG_readouts_frame n) (removeId_frame n) s
-  · exact frame_andThen (removeId_frame n) (popG_readouts_frame n) s
-
-theorem cacheOK_frame {s s' : State} (hc : s'.cache = s.cache)
-    (hk : createCache s'.content = createCache s.content) (h : CacheOK s) : CacheOK s' := by
-  rcases h with h | ⟨c, h1, h2⟩
-  · exact Or.inl (hc.trans h)
-  · exact Or.inr ⟨c, hk.trans h1, hc.trans h2⟩
-
-theorem addReadout_cacheOK (n f) (s : State) (h : CacheOK s) : CacheOK (addReadout n f s).1 := by
-  unfold addReadout
-  by_cases hm : Gen.invalidates .add_readout = true
-  · exact Or.inl (addG_toNone _ _ _ _ _ _ (inval_none hm s))
-  · have : inval .add_readout s = s := by simp [inval, hm]
-    rw [this]
-    exact cacheOK_frame (addG_readouts_frame _ _ _ _ s).1 (addG_readouts_frame _ _ _ _ s).2 h
-
-theorem removeReadout_cacheOK (n) (s : State) (h : CacheOK s) : CacheOK (removeReadout n s).1 := by
-  unfold removeReadout
-  by_cases hm : Gen.invalidates .remove_readout = true
-  · exact Or.inl (removeG_toNone _ _ _ _ (inval_none hm s))
-  · have : inval .remove_readout s = s := by simp [inval, hm]
-    rw [this]
-    exact cacheOK_frame (removeG_readouts_frame _ _ s).1 (removeG_readouts_frame _ _ s).2 h
+theorem removeReadout_none (hm : Gen.invalidates .remove_readout = true) (n s) :
+    (removeReadout n s).1.cache = none := by
+  have : removeReadout n s = removeReadout n (inval .remove_readout s) := by simp [removeReadout, inval_idem]
+  rw [this]; exact removeReadout_toNone _ _ (inval_none hm s)
 
 /-! ### composites and plural forms -/
 
@@ -441,7 +368,7 @@ theorem ensureCache_cacheOK {s : State} (h : CacheOK s) : CacheOK (ensureCache s
     · exact h
 
 theorem ensureCache_ok {s s1 : State} {c : Cache} (h : CacheOK s) (he : ensureCache s = (s1, .ok c)) :
-    createCache s.content = .ok c ∧ s1.content = s.content ∧ s1.ids = s.ids := by
+    buildCache s.sigs s.content = .ok c ∧ s1.content = s.content ∧ s1.ids = s.ids := by
   unfold ensureCache at he
   split at he
   · rename_i c0 hc0
@@ -569,20 +496,105 @@ theorem step_cacheOK (s : State) (op : Op) (h : CacheOK s) : CacheOK (step s op)
   | add_reaction n r => exact Or.inl (addReaction_none (T .add_reaction rfl) _ _ _)
   | update_reaction n fn args st => exact Or.inl (updateReaction_none (T .update_reaction rfl) _ _ _ _ _)
   | remove_reaction n => exact Or.inl (removeReaction_none (T .remove_reaction rfl) _ _)
-  | add_readout n f => exact addReadout_cacheOK n f s h
-  | remove_readout n => exact removeReadout_cacheOK n s h
+  | add_readout n f => exact Or.inl (addReadout_none (T .add_readout rfl) _ _ _)
+  | remove_readout n => exact Or.inl (removeReadout_none (T .remove_readout rfl) _ _)
   | add_surrogate n su => exact Or.inl (addSurrogate_none (T .add_surrogate rfl) _ _ _)
+  | add_surrogate_kw n su u => exact Or.inl (addSurrogate_none (T .add_surrogate rfl) _ _ _)
   | update_surrogate n u => exact Or.inl (updateSurrogate_none (T .update_surrogate rfl) _ _ _)
   | remove_surrogate n => exact Or.inl (removeSurrogate_none (T .remove_surrogate rfl) _ _)
   | add_data n v => exact Or.inl (addData_none (T .add_data rfl) _ _ _)
   | update_data n v => exact Or.inl (updateData_none (T .update_data rfl) _ _ _)
   | remove_data n => exact Or.inl (removeData_none (T .remove_data rfl) _ _)
 
-theorem query_cacheOK (s : State) (q : Query) (h : CacheOK s) : CacheOK (query s q).1 := by
-  have h1 := ensureCache_cacheOK h
+/-! ### the signatures written by `stepS` -/
+
+theorem foldOps_cache_none {α} (f : α → State → State × Res) (hn : ∀ a s, (f a s).1.cache = none)
+    (a : α) (rest : List α) (s : State) : (foldOps f (a :: rest) s).1.cache = none := by
+  induction rest generalizing a s with
+  | nil =>
+    simp only [foldOps]
+    unfold andThen
+    split
+    · rename_i s1 heq
+      have := hn a s; rw [heq] at this; simpa [ok] using this
+    · rename_i s1 e heq
+      have := hn a s; rw [heq] at this; exact this
+  | cons b rest ih =>
+    simp only [foldOps]
+    unfold andThen
+    split
+    · rename_i s1 heq
+      exact ih b s1
+    · rename_i s1 e heq
+      have := hn a s; rw [heq] at this; exact this
+
+theorem pluralOp_cache_none {α} (m chk) (f : α → State → State × Res) (hn : ∀ a s, (f a s).1.cache = none)
+    (l : List α) (hl : l ≠ []) (s : State) (hok : (pluralOp m chk f l s).2 = .ok ()) :
+    (pluralOp m chk f l s).1.cache = none := by
+  unfold pluralOp at hok ⊢
+  simp only at hok ⊢
+  split
+  · rename_i e heq; rw [heq] at hok; simp [fail] at hok
+  · cases l with
+    | nil => exact absurd rfl hl
+    | cons a rest => exact foldOps_cache_none f hn a rest _
+
+/-- a call that passes function objects leaves the cache empty when it returns normally (so the signatures
+    `stepS` records cannot disagree with a kept cache) -/
+theorem step_fn_cache_none (s : State) (op : Op) (hne : op.fnNames ≠ []) (hok : (step s op).2 = .ok ()) :
+    (step s op).1.cache = none := by
+  have T := table_invalidates
+  cases op with
+  | add_parameter n v => exact addParameter_none (T .add_parameter rfl) _ _ _
+  | update_parameter n v => exact updateParameter_none (T .update_parameter rfl) _ _ _
+  | add_variable n v => exact addVariable_none (T .add_variable rfl) _ _ _
+  | update_variable n v => exact updateVariable_none (T .update_variable rfl) _ _ _
+  | add_derived n f => exact addDerived_none (T .add_derived rfl) _ _ _
+  | update_derived n fn args => exact updateDerived_none (T .update_derived rfl) _ _ _ _
+  | add_reaction n r => exact addReaction_none (T .add_reaction rfl) _ _ _
+  | update_reaction n fn args st => exact updateReaction_none (T .update_reaction rfl) _ _ _ _ _
+  | add_readout n f => exact addReadout_none (T .add_readout rfl) _ _ _
+  | add_parameters l =>
+    exact pluralOp_cache_none _ _ _ (fun a s => addParameter_none (T .add_parameter rfl) _ _ _) l
+      (by simpa [Op.fnNames] using hne) s hok
+  | update_parameters l =>
+    exact pluralOp_cache_none _ _ _ (fun a s => updateParameter_none (T .update_parameter rfl) _ _ _) l
+      (by simpa [Op.fnNames] using hne) s hok
+  | add_variables l =>
+    exact pluralOp_cache_none _ _ _ (fun a s => addVariable_none (T .add_variable rfl) _ _ _) l
+      (by simpa [Op.fnNames] using hne) s hok
+  | update_variables l =>
+    exact pluralOp_cache_none _ _ _ (fun a s => updateVariable_none (T .update_variable rfl) _ _ _) l
+      (by simpa [Op.fnNames] using hne) s hok
+  | _ => exact absurd rfl hne
+
+theorem stepS_cacheOK (s : State) (op : Op) (given) (h : CacheOK s) : CacheOK (stepS s op given).1 := by
+  have h1 := step_cacheOK s op h
+  unfold stepS
+  simp only
+  split
+  · rename_i hok
+    by_cases hne : op.fnNames = []
+    · have hf : (given.filter fun g => op.fnNames.contains g.1) = [] := by
+        rw [hne]; exact List.filter_eq_nil_iff.mpr (fun g _ => by simp)
+      rw [hf]
+      exact h1
+    · exact Or.inl (step_fn_cache_none s op hne hok)
+  · exact h1
+
+/-- a query leaves the state alone or fills the cache — nothing else -/
+theorem query_fst (s : State) (q : Query) : (query s q).1 = s ∨ (query s q).1 = (ensureCache s).1 := by
   unfold query
   split
-  · rename_i s1 e heq; rw [heq] at h1; exact h1
-  · rename_i s1 c heq; rw [heq] at h1; exact h1
+  · exact Or.inl rfl
+  · split
+    · right
+      split <;> (rename_i heq; rw [heq])
+    · exact Or.inl rfl
+
+theorem query_cacheOK (s : State) (q : Query) (h : CacheOK s) : CacheOK (query s q).1 := by
+  rcases query_fst s q with h1 | h1 <;> rw [h1]
+  · exact h
+  · exact ensureCache_cacheOK h
 
 end Mxl.C03
